@@ -51,7 +51,13 @@ def rule_builder_shape(ctx):
     need("dbg:finisher-choice", len(fin) == 2 or (len(fin_sel) == 2 and all(v == {True: "finish", False: "finish_non_exhaustive"} for v in fin_sel.values())), "`finish()` is no longer chosen iff no field was skipped (else `finish_non_exhaustive()`): the `..` marker appears / disappears wrongly", {"found": fin})
     need("dbg:field-name", "let field_str=field_ident.unraw().to_string()" in t and t.index("let field_str=field_ident.unraw().to_string()") < t.index("match FieldAttribute::parse_attrs(&field.attrs,self.attr_name)?", t.index("named.named.iter()")), "the printed field name is no longer the un-raw identifier computed once for all three field arms", {})
     # container attribute first
-    need("dbg:container-attr", t.startswith("if let Some(fmt)=&self.attr.fmt{return Ok(if let Some((expr,trait_ident))=fmt.transparent_call_on_fields(self.fields){"), "a container-level format is no longer handled before (and instead of) the builders", {})
+    # (the transparent-first / write! decision itself, inline or in a shared helper of the attribute, is TRANSP-SIB's subject)
+    mh = re.match(r"if let Some\(fmt\)=&self\.attr\.fmt\{return Ok\(fmt\.(\w+)\(self\.fields\)\)", t)
+    via_helper = False
+    if mh:
+        hs = [g for g in A.functions(ctx.files["impl/src/fmt/mod.rs"]) if g.name == mh.group(1) and g.block is not None]
+        via_helper = len(hs) == 1 and "transparent_call_on_fields" in A.fn_text(hs[0]) and "write!" in A.fn_text(hs[0])
+    need("dbg:container-attr", via_helper or t.startswith("if let Some(fmt)=&self.attr.fmt{return Ok(if let Some((expr,trait_ident))=fmt.transparent_call_on_fields(self.fields){"), "a container-level format is no longer handled before (and instead of) the builders", {})
 
 
 def _finisher_selection(fn):
